@@ -114,6 +114,13 @@ func Run(o Opts) (Result, error) {
 	ctx, cancel := context.WithTimeout(context.Background(), o.Timeout)
 	defer cancel()
 	cmd := exec.CommandContext(ctx, "tlc", args...)
+	const jar, deps = "/opt/veriftools/tla/tla2tools.jar", "/opt/veriftools/tla/CommunityModules-deps.jar"
+	if _, e := os.Stat(jar); e == nil && o.Xss != "" {
+		// -Xss must be on the command line to reach the main thread (where
+		// TLC evaluates ASSUMEs and constant definitions).
+		jargs := append([]string{"-Xss" + o.Xss, "-XX:+UseParallelGC", "-cp", jar + ":" + deps, "tlc2.TLC"}, args...)
+		cmd = exec.CommandContext(ctx, "java", jargs...)
+	}
 	cmd.Dir = dir
 	jto := os.Getenv("JAVA_TOOL_OPTIONS")
 	if o.DFS {
